@@ -16,11 +16,12 @@ from vt import core
 from vt.main import decide
 from translate import history_tr
 
-GRAMS = ["GA", "GB", "GC", "GD", "GE", "BAD1", "BAD2", "BAD3", "BAD4"]
+GRAMS = ["GA", "GB", "GC", "GD", "GE", "BAD1", "BAD2", "BAD3", "BAD4", "GF"]
 USES_BASE = {"GB", "GC", "GE"}
-CLS_KEYS = ["Item:plain", "Item:set", "Item:boom", "Model:plain", "Ref:plain"]
-CLS_FOR = {"GA": ["Item:plain", "Item:set", "Item:boom", "Model:plain", "Ref:plain"], "GB": ["Item:plain", "Item:set", "Item:boom"],
-           "GC": [], "GD": ["Item:plain", "Item:set", "Ref:plain", "Model:plain"], "GE": ["Item:plain", "Item:set"]}
+CLS_KEYS = ["Item:plain", "Item:set", "Item:boom", "Model:plain", "Ref:plain", "Item:get"]
+CLS_FOR = {"GA": ["Item:plain", "Item:set", "Item:boom", "Item:get", "Model:plain", "Ref:plain"], "GB": ["Item:plain", "Item:set", "Item:boom", "Item:get"],
+           "GC": [], "GD": ["Item:plain", "Item:set", "Ref:plain", "Model:plain"], "GE": ["Item:plain", "Item:set", "Item:get"],
+           "GF": ["Item:set", "Item:get", "Item:plain"]}
 
 INPUTS = {
     "GA": ["A item x = 1; ref x;", "A item x = 1; item y = 22; ref y; ref x;", "A item x = 1; ref zz;", "A item x = 1 ref x;",
@@ -33,6 +34,9 @@ INPUTS = {
            'import "cyc.gd"; item r; ref s;', "item ; ", 'import "lib.gd"; item mperr; ref b;', 'import "lib.gd"; item bad; ref a;',
            "item y; ref p;"],
     "GE": ["12", "true", "item a 3", "3.5", "item a x", "item boom 4"],
+    # GF: the root value is whatever the object processors of the match rules return (Decimal, Fraction, tuple, frozenset,
+    # list, a plain Python object) or an Item
+    "GF": ["item a 3", "12.5mm", "3:4", "item b 7", "item", "7mm", "12.5 mm", "10:2"],
 }
 EXTRA_FILES = {"lib.gd": "item a = 1.5; item b;", "lib2.gd": 'import "lib.gd"; item c;', "broken.gd": "item ;",
                "cyc.gd": 'import "GD_6.gd"; item s; ref r;'}
@@ -56,7 +60,7 @@ def cls_id(g, key):
 
 # ------------------------------------------------------------------ generators
 def rand_cfg(r, g=None):
-    g = g or r.weighted([("GA", 5), ("GB", 5), ("GC", 3), ("GD", 4), ("GE", 3)])
+    g = g or r.weighted([("GA", 5), ("GB", 5), ("GC", 3), ("GD", 4), ("GE", 3), ("GF", 5)])
     cfg = {"g": g}
     if r.chance(0.45):
         cfg["memo"] = True
@@ -72,7 +76,11 @@ def rand_cfg(r, g=None):
     if cl:
         cfg["classes"] = cl
     objp = []
-    if g in ("GA", "GB", "GE") and r.chance(0.3):
+    if g == "GF":          # what the root rule yields for its match-rule alternatives
+        m = r.weighted([("Measure:decimal", 4), ("Measure:fraction", 2), ("Measure:obj", 2), (None, 1)])
+        q = r.weighted([("Pair:tuple", 4), ("Pair:frozenset", 2), ("Pair:list", 2), (None, 1)])
+        objp += [x for x in (m, q) if x]
+    if g in ("GA", "GB", "GE", "GF") and r.chance(0.3):
         objp.append("INT:inc")
     if g in ("GB", "GC") and r.chance(0.3):
         objp.append("STRING:up")
@@ -117,6 +125,10 @@ def rand_load(r, cfg, slot, last):
         k = last[1]
     else:
         k = r.below(n)
+    if g == "GF" and r.chance(0.6):
+        # alternate between inputs whose model is a non-textX value and inputs that instantiate the (user) class
+        items, values = [0, 3], [1, 2, 5, 7]
+        k = r.choice(values if last is None or last[0] != g or last[1] in items else items)
     via = r.weighted([("file", 6), ("strfn", 3), ("str", 1)]) if g == "GD" else r.weighted([("str", 5), ("file", 3), ("strfn", 2)])
     if VIA_FIXED:
         via = (["file", "strfn", "file"] if g == "GD" else ["str", "file", "strfn"])[(k + len(g) + GRAMS.index(g)) % 3]
@@ -126,8 +138,11 @@ def rand_load(r, cfg, slot, last):
 def make_pool(r, n):
     """the run's pool of metamodel configurations (histories draw from it, so fresh evaluations are shared)"""
     pool = []
-    for i, g in enumerate(["GA", "GB", "GD", "GC", "GE"][:n]):
+    for i, g in enumerate(["GA", "GB", "GD", "GF", "GC", "GE"][:n]):
         pool.append(rand_cfg(r, g))
+    gf = next(c for c in pool if c["g"] == "GF")      # always a user class with its own attribute methods where the root
+    if not any(k in gf.get("classes", []) for k in ("Item:set", "Item:get")):   # rule can yield non-textX values
+        gf["classes"] = [r.choice(["Item:set", "Item:get"])]
     while len(pool) < n:
         pool.append(rand_cfg(r))
     gd = next(c for c in pool if c["g"] == "GD")      # always one multi-file configuration with a global repository
@@ -309,7 +324,7 @@ Fixpoint trace (co : cfg -> gview -> cres) (lo : cfg -> nat -> view -> lres) (st
 Definition go ctab ltab ops ss cs : string := sjoin " # " (trace (mk_create ctab) (mk_load ltab) init ops ss cs).
 """
 
-LK = {"importsyntax": "LImportSyntax", "syntax": "LSyntax", "before": "LBeforeEnd", "after": "LAfterEnd", "modelproc": "LModelProc", "prim": "LOkPrim", "ok": "LOk"}
+LK = {"imm": "LOkImm", "importsyntax": "LImportSyntax", "syntax": "LSyntax", "before": "LBeforeEnd", "after": "LAfterEnd", "modelproc": "LModelProc", "prim": "LOkPrim", "ok": "LOk"}
 
 
 def c_nats(xs):
@@ -328,7 +343,7 @@ def load_kind(o):
     """phase of the outcome, from what the fresh run did (events recorded by the runner)"""
     res, ev = o["res"], o["ev"]
     if "ok" in res:
-        return "prim" if res.get("prim") else "ok"
+        return "prim" if res.get("prim") else ("imm" if res.get("imm") else "ok")
     if "R" not in ev:
         return "syntax"
     if "M" in ev:
@@ -559,17 +574,18 @@ def run(chk):
     global VIA_FIXED
     VIA_FIXED = not chk.thorough
     nrand = 60 if chk.thorough else 8
-    pool = make_pool(chk.rng.split("pool"), 12 if chk.thorough else 5)
+    pool = make_pool(chk.rng.split("pool"), 12 if chk.thorough else 6)
     for i in range(nrand):
         r = chk.rng.split(i)
         c = gen_history(r, 14 if chk.thorough else 10, pool)
         c["kind"] = "random"
         cases.append(c)
-    cases += enum_cases(2 if chk.thorough else 1)
+    cases += enum_cases(2) if chk.thorough else enum_cases(1)[::2]
     evaluate(chk, cases, failures, disagreements, spawn_check=8 if chk.thorough else 1)
     chk.cov["rule"] = ("corpus + %d random histories over a pool of %d configurations drawn for the run (2-5 metamodel configurations per history incl. a twin sharing the user classes and an invalid grammar, 1-3 slots, "
                        "up to %d operations: creations and loads via string/file/string+filename over valid inputs and inputs failing at the parse, before and after the end "
-                       "of construction and in a model processor) + all histories of length <= %d over 3 metamodels x 3 inputs + 2 re-creations; every operation compared with "
+                       "of construction and in a model processor; root values that are textX objects, primitives, other immutable values and plain objects) + all (quick: every second) "
+                       "histories of length <= %d over 3 metamodels x 3 inputs + 2 re-creations; every operation compared with "
                        "the same operation on a fresh process state; persistent state after every operation compared with Model/History.v; non-trivial = at least two loads and "
                        "(a failing operation or two slots); distinct by configuration list and operation list" % (nrand, len(pool["cfgs"]), 14 if chk.thorough else 10, 2 if chk.thorough else 1))
     chk.cov["exhaustive"] = False
